@@ -16,6 +16,8 @@ RULE = ('case = (hard/soft/both graph over 1-6 probe tasks, possibly with back e
         'the work queue. non-trivial = cycle, malformed/raising outcome, non-empty initial environment, '
         'or the master blocked in Condition.wait at least once; distinct = (graph, outcomes, init, '
         'workers, trace hash)')
+RULE_ADDENDA = (' Decorations shared by the scheduler checks (vlib/schedcase.py): generated insertion order, nested graphs as nodes, a top-level key shared by all updates, back-end first used on another graph, spurious wake-ups, graphs sorted before their last edits, reloaded / resumed initial environment, Scheduler scheduled again, tasks returning their whole own section, updates that are mappings but not dicts, statuses WAITING / PENDING / 1 / 2.0, a well-formed update followed by an entry that can never be merged, a task that schedules a graph of its own with default back-ends (overlapping calls), and (C02, C03) four wide graphs of 300-2100 ready tasks.')
+RULE = RULE + RULE_ADDENDA
 ASSUMPTIONS = ['Condition/Queue/RLock look-alikes have CPython blocking semantics, spurious wake-ups are '
                'generated in an eighth of the cases; corroborated by running generated cases on real threads in a child process '
                '(coverage keys real_thread_*): a real run that hangs or leaks is reported only when the '
